@@ -223,6 +223,39 @@ pub fn proto_worlds(tier: Tier, with_foreach: bool, with_sources: bool) -> Vec<W
             }
         }));
     }
+    // two subscriptions to the same output value (overlapping and sequential): state hoisted out of
+    // the per-subscription closure shows up as a protocol violation of the second subscription
+    for op in [
+        Op::Scan(0),
+        Op::Take(2),
+        Op::Skip(1),
+        Op::Filter(Pred::Even),
+        Op::Merge(2),
+        Op::Concat(2),
+        Op::Combine(2),
+        Op::Flatten,
+    ] {
+        let big = matches!(op, Op::Merge(_) | Op::Concat(_) | Op::Combine(_) | Op::Flatten);
+        let (e, d) = match (big, tier == Tier::Quick) {
+            (false, true) => (5, 2),
+            (false, false) => (7, 3),
+            (true, true) => (4, 1),
+            (true, false) => (5, 2),
+        };
+        let mut s = spec(op, e, d);
+        s.cfg.max_probes = 2;
+        s.cfg.data_budget = 2;
+        s.cfg.nested_events = false;
+        s.name = format!("{} x2 E={} D={}", s.name, e, d);
+        v.push(s);
+    }
+    if with_sources {
+        let (e, d) = if tier == Tier::Quick { (6, 3) } else { (8, 4) };
+        let mut s = spec(Op::FromIter(vec![1, 2]), e, d);
+        s.cfg.max_probes = 2;
+        s.name = format!("{} x2 E={} D={}", s.name, e, d);
+        v.push(s);
+    }
     if with_foreach {
         v.extend(with_bounds(Op::ForEach(None), tier, |_| {}));
         for op in [Op::Map, Op::Filter(Pred::Even), Op::Scan(0), Op::Take(2), Op::Skip(1)] {
